@@ -87,7 +87,7 @@ static long g_persist_from = -1;
 static long g_call;     // index of the next faultable call (open, flock, pwrite, close, mkdir)
 static int g_active;    // inside a call into the code under test
 
-static struct own { int fd; int ord; int is_open; } g_own[1024];
+static struct own { int fd; int ord; int is_open; unsigned long long end; } g_own[1024]; // end: highest byte written so far
 static int g_nown;
 
 static char g_ev[1 << 16];
@@ -199,6 +199,7 @@ int open(const char* path, int flags, ...)
         g_own[g_nown].fd = fd;
         g_own[g_nown].ord = g_nown + 1;
         g_own[g_nown].is_open = 1;
+        g_own[g_nown].end = 0;
         ++g_nown;
     }
     ev("open(%s)=d%d", path, g_nown);
@@ -219,12 +220,34 @@ int open64(const char* path, int flags, ...)
 // `big` op: the data is not stored (the file would be gigabytes); what is checked is where each write is aimed
 static int g_big;
 static unsigned long long g_big_next;
+static int g_kind = -1;      // 0 raw 1 tiff 2 sxs 3 trash
+// TIFF kinds in a big run: the end of everything written so far, and the number of writes; the writer lays its sections (directory,
+// strip, description) out one after the other at 8-aligned offsets and goes back only to patch the 8-byte link of the last directory
+static unsigned long long g_big_end;
+static unsigned long g_big_writes, g_big_patches;
 ssize_t pwrite(int fd, const void* buf, size_t count, off_t off)
 {
     if (!g_active) return syscall(SYS_pwrite64, fd, buf, count, off);
-    if (g_big) {
+    if (g_big && g_kind == 0) {
         if ((unsigned long long)off != g_big_next)
             oracle_fail("raw-write-aimed-at-wrong-offset expected=%llu got=%llu count=%zu", g_big_next, (unsigned long long)off, count);
+        g_big_next += count;
+        return (ssize_t)count;
+    }
+    if (g_big) {
+        unsigned long long o = (unsigned long long)off;
+        struct own* w = find_open(fd);
+        if (!w) { oracle_fail("unowned-pwrite %d", fd); errno = EBADF; return -1; }
+        if (g_big_end < w->end) g_big_end = w->end;
+        ++g_big_writes;
+        if (o >= g_big_end) {
+            if (o >= g_big_end + 8 || o % 8)
+                oracle_fail("tiff-section-not-adjacent end=%llu got=%llu count=%zu", g_big_end, o, count);
+            g_big_end = o + count;
+        } else if (count > 8 || o + count > g_big_end) {
+            oracle_fail("tiff-write-overlaps-earlier-data end=%llu got=%llu count=%zu", g_big_end, o, count);
+        } else
+            ++g_big_patches;
         g_big_next += count;
         return (ssize_t)count;
     }
@@ -269,6 +292,7 @@ ssize_t pwrite(int fd, const void* buf, size_t count, off_t off)
         if (g_zero.cnt >= 3) g_op_zero_run = 1;
     }
     ev("pwrite(%s,%ld,%zu)=%zu", fdname(fd, nm), (long)off, count, want);
+    if (want && (unsigned long long)off + want > find_open(fd)->end) find_open(fd)->end = (unsigned long long)off + want;
     return (ssize_t)want;
 }
 ssize_t pwrite64(int fd, const void* buf, size_t count, off_t off) { return pwrite(fd, buf, count, off); }
@@ -356,7 +380,6 @@ int unlink(const char* path)
 
 // ------------------------------------------------------------------ case state
 static struct Storage* g_st;
-static int g_kind = -1;      // 0 raw 1 tiff 2 sxs 3 trash
 static int g_closed;
 static char g_cur_name[2800];     // path the current URI denotes (URI minus "file://")
 static int g_have_name;
@@ -613,7 +636,7 @@ static void run_case(char** lines, int nlines)
             f->shape.strides.channels = 1; f->shape.strides.width = 1; f->shape.strides.height = f->shape.dims.width; f->shape.strides.planes = (int64_t)f->shape.dims.width * 8;
             f->shape.type = SampleType_u8;
             g_big = 1;
-            if (g_acq_clean) g_big_next = g_acq_len;   // first `big` of this acquisition: continue after what was appended normally
+            if (g_acq_clean) { g_big_next = g_acq_len; g_big_end = 0; g_big_writes = g_big_patches = 0; }   // first `big` of this acquisition: continue after what was appended normally
             g_acq_clean = 0;   // the file's bytes are not there to compare
             enum DeviceStatusCode rc = Device_Ok;
             for (long k = 0; k < cnt && rc == Device_Ok; ++k) {
@@ -624,7 +647,7 @@ static void run_case(char** lines, int nlines)
             }
             g_big = 0;
             free(pkt);
-            printf("big %s total=%llu\n", rc == Device_Ok ? "ok" : "err", g_big_next);
+            printf("big %s total=%llu end=%llu writes=%lu\n", rc == Device_Ok ? "ok" : "err", g_big_next, g_big_end, g_big_writes);
             if (g_orclen) fputs(g_orc, stdout);
             g_orclen = 0; g_orc[0] = 0;
             continue;
